@@ -86,6 +86,11 @@ def run(ctx):
     ctx.floor("builtin-shape", n, 26, "builtins with a shape row")
     check_no_unstable_sort(ctx, lib, by_name)
     ctx.attempt("check_internal_order", check_internal_order, ctx, lib)
+    # contains (and the duplicate test of any builtin comparing elements) is Variable's ==: its table per pair of kinds
+    # and the number comparison behind it are part of what those builtins return
+    from .c10 import check_equality, check_number_equality
+    ctx.attempt("check_equality", check_equality, ctx, lib)
+    ctx.attempt("check_number_equality", check_number_equality, ctx, lib)
     check_expref_application(ctx, lib, by_name, sigs)
     ctx.attempt("check_result_types", check_result_types, ctx, lib, sigs)
 
@@ -396,8 +401,8 @@ def fn_to_string(ctx, lib, nm, b):
     C(ctx, nm, "value", ok, "a string is returned as is; anything else becomes String(its JSON text via Display)", b)
     d = lib.fn("<variable::Variable as std::fmt::Display>::fmt")
     if d is not None:
-        names = [t["callee"] for _, t in d.calls()]
-        C(ctx, nm, "display-is-json", "serde_json::to_string" in names, "Display for Variable is serde_json::to_string(self)", d)
+        from .c08 import display_is_json
+        C(ctx, nm, "display-is-json", display_is_json(d, lib), "Display for Variable is serde_json::to_string(self) on every path", d)
 
 
 def fn_to_number(ctx, lib, nm, b):
@@ -432,6 +437,15 @@ def fn_to_number(ctx, lib, nm, b):
             if not good:
                 detail.append(f"{k0}{'' if isnum is None else '/parsed-is-number=' + str(isnum)}: {fmt_terms(res)[:100]}")
             ok = ok and good
+    # what a string becomes is decided by parsing it and by nothing else: no result for a string argument is produced on a
+    # path that has not been through the JSON parse
+    try:
+        per = results_by_kind(b, lib, {arg(0): "String"}, by_path=True)
+    except Undecided:
+        per = None
+    parses = {blk for blk, t in b.calls() if t["callee"] == "variable::Variable::from_json"}
+    skipped = per is None or not parses or any(ok_payloads(r) and not (set(path) & parses) for path, r in per)
+    C(ctx, nm, "string-decided-by-parse", not skipped, "every result for a string argument lies after Variable::from_json(the string)", b)
     C(ctx, nm, "value", ok, "a number is returned as is; a string is parsed as JSON and kept only if it is a number; everything else is null" + (f" — {detail}" if detail else ""), b)
 
 
